@@ -340,11 +340,13 @@ _RULE_EXTRA = {
     "C12": "; 1 in 20: a repository directory (badger + SQLite files) with 1..3 transactions (in progress or committed, begun well before or after the time-to-live: default, 24h or 2h) staging 1..2 refs each, `wrgl gc` or `wrgl prune` through the command line, judged with the refs that exist afterwards as roots; 1 in 20: the SQLite ref store fails with a disk I/O error after 0..5 rows of a scan during prune (nothing reachable may go, success must mean complete), then a healthy re-run; 1 in 40: 30..60 commits over 25..40 tables on a real badger store",
     "C13": "; every write position also as a single injected write error (the operation continues): consistency, error reported or harmless, re-run; every crash point also as a recovery history (crash, a complete prune of the reopened repository, the operation again: same refs, every commit they reach and its table present, consistent); 1 in 4 cases: the fetch command's Fetch (default refspec) against the reference server, remote 1..3 commits ahead on main, optional second branch, 0..2 tags outside the refspec, 1..n packfiles; 1 in 4: one of the four kinds in a repository that also holds an unreachable commit; 1 in 12: `transaction commit` of an open transaction staging 1..3 branches (existing and new), staged as `wrgl commit --txid` does (write kinds and pairing from the extracted loop order; each interrupted run judged on its own branch order)",
     "C14": "; 1 in 5 scenarios inject the fault into discard (crash or single error at each of its store operations) and discard again; commit faults as crash or single error; 1 in 5 scenarios: the fault is one failing SQL statement inside the ref store (trigger: either statement of a branch's logged ref update, the status flip, a staged-ref delete, the transaction-row delete), then re-run / discard; 1 in 100 (thorough 1 in 400): branches made and the transaction staged by `wrgl commit --txid` (file argument / branch.file / --all in turn), dumped before and after staging and after each `wrgl transaction commit/discard` (one with a staged commit unreadable)",
-    "C15": "; 1 in 8 logged sets run with a failing reflog insert (SQL trigger): must fail and change nothing; 1 in 4 sequences: logged sets with generated author, action, time and transaction id (two ids or none), then logged set + copy/rename + log read of the target; log entries are compared in all their fields; 1 in 5 sequences (tag store=fs): 60..130 ops (thorough 40..260) on the file-based store pkg/ref/fs over 17 file names and the names bulk renames make of them: three refs take most logged sets (entries of 60..400 bytes, generated author/e-mail/action/time, old value handed in as ref.SaveRef does), so logs reach dozens of entries over several 1024-byte chunks of the backward scanner; rename/copy also into directories that held no log; single-directory prefix listings, bulk delete/rename of remotes; logs read in between and for every name at the end",
+    "C15": "; 1 in 8 logged sets run with a failing reflog insert (SQL trigger): must fail and change nothing; 1 in 4 sequences: logged sets with generated author, action, time and transaction id (two ids or none), then logged set + copy/rename + log read of the target; log entries are compared in all their fields; 1 in 5 sequences (tag store=fs): 60..130 ops (thorough 40..260) on the file-based store pkg/ref/fs over 17 file names and the names bulk renames make of them: three refs take most logged sets (entries of 60..400 bytes, generated author/e-mail/action/time, old value handed in as ref.SaveRef does), so logs reach dozens of entries over several 1024-byte chunks of the backward scanner; rename/copy also into directories that held no log; single-directory prefix listings, bulk delete/rename of remotes; logs read in between and for every name at the end; 1 case in 20 (tag fs-rejected): a file-store history that also holds renames / copies / plain sets the directory layout has to refuse (destination is an existing directory or lies below a bound name; c15FsDomain a7): they must fail and change nothing, sources are read and renamed again afterwards",
     "C16": "; 1 in 4 cases: a merge of 2..3 branches (256..955 rows) with a deleted block / block index of base or branch or reads failing after k, under a 75 s watchdog, and without fault compared with the one-processor outcome; the table index is compared too; 1 in 4 of the rest: the commit command's ingest helper on a store that refuses the k-th write (must return the error, never hang); 1 in 5 of the rest: a progress bar created with total in {-1,0,1,5,10,1000}, moved by 0..4 Incr/SetTotal/SetCurrent calls, finished with Done() under a 20 s timer, compared with Model/PBar.lean; the merge consumer reaches the merge channel 0 / 0.3 / 20 ms after Start() (by case index) and, like `wrgl merge`, asks the merger for Columns() and PK() on the first message: they must be the merged table's columns and key, with or without a fault; on 1 case index in 6 additionally an ingest through a store whose writes take 0.5 / 2 / 5 ms (tag slow-store) with more blocks than the sorted-block channel's buffer and the workers hold together (buffer + 2..3 x effective workers + 1, sometimes a few more; 1 in 3 with the sorter spilling several runs to disk), so that the producer blocks in its sends and the last block is sent into a full channel: same table, row and block count as the single-threaded run; three such inputs are corpus cases (corpus/C16/slowstore.jsonl)",
     "C17": "; well-formed packfiles whose block decompresses but is invalid, or whose table object lies about its blocks (key index out of range, wrong row count, wrong width); every 4-byte window of small objects overwritten by a huge count; profiles declaring fewer field names; commit / table / profile bytes also read through the store getters",
     "C19": "; keyless tables over a tiny alphabet with the empty cell; the two outputs must agree also when keys repeat; on 1 in 12 case indices also 1..10 rows with 1..3 cells of 65533..65536 bytes in removed / kept / key columns (tag limit-cell); on 2 in 12 also one sorter used for 2..3 tables of different shapes with Reset() in between (op sort-reuse), the earlier uses abandoned after AddRow / read under a cancelled context / read to the end: every use read to the end must satisfy the same clauses for its own table and agree with the model started from the empty state, and after Close() no spill file of any use may be left",
-    "C20": "; 1 in 8: 256..335 hashes sharing a first byte added in one batch",
+    "C20": "; 1 in 8: 256..335 hashes sharing a first byte added in one batch; 1 case in 5 (tag read-fault): flushes and adds that meet one injected read error of the fan-out table before their first write "
+           "(the file is untouched) and are retried, judged by the same clauses on the flushes that follow; 1 case in 400 (op bulk, tag bulk): batch sizes above 65536 with 65536..65836 hashes of one first byte "
+           "(and a few of neighbouring ones) in one flush, into an empty file or between entries flushed before, judged against the sorted set of the added hashes",
 }
 for _k, _v in _RULE_EXTRA.items():
     PROPS[_k]["rule"] = PROPS[_k]["rule"] + _v
